@@ -1255,7 +1255,7 @@ func ValueTupleExpr(query *Query, current Map, expr *sqlparser.ValTuple, opts ..
 		if err != nil {
 			return nil, err
 		}
-		slice = append(slice, value)
+		slice = append(slice, unmarked(value))
 	}
 	return slice, nil
 }
@@ -1349,7 +1349,7 @@ func SelectExpr(query *Query, current Map, expr *sqlparser.SelectExprs, opts ...
 							return nil
 						}
 
-						data[name] = value
+						data[name] = unmarked(value)
 						return nil
 					})
 				}
@@ -1445,7 +1445,8 @@ func FunExpr(query *Query, current Map, expr *sqlparser.FuncExpr, opts ...ExprOp
 		var rs any
 		var err error
 		query.postProcessors = append(query.postProcessors, func() error {
-			slice, e := FuncArgReader(query, current, expr.Exprs)
+			// (AWAIT stands for its argument: an omit marker keeps its meaning)
+			slice, e := funcArgs(query, current, expr.Exprs)
 			if e != nil {
 				err = e
 				return e
@@ -1640,6 +1641,30 @@ func AggrFunExpr(query *Query, current Map, expr sqlparser.AggrFunc, opts ...Exp
 }
 
 func FuncArgReader(query *Query, current Map, selectExprs []sqlparser.Expr, opts ...ExprOption) ([]any, error) {
+	slice, err := funcArgs(query, current, selectExprs, opts...)
+	if err != nil {
+		return nil, err
+	}
+	for i := range slice {
+		slice[i] = unmarked(slice[i])
+	}
+	return slice, nil
+}
+
+// unmarked turns the markers FUSE and the column-less functions (SETVAR, SPIN,
+// REPORT, ...) return into data. They mean something as a select-list item
+// only: as an argument or an element they would end up inside the result
+func unmarked(value any) any {
+	switch value := value.(type) {
+	case Ommit:
+		return nil
+	case Fuse:
+		return Map(value)
+	}
+	return value
+}
+
+func funcArgs(query *Query, current Map, selectExprs []sqlparser.Expr, opts ...ExprOption) ([]any, error) {
 	slice := make([]any, 0)
 	for _, expr := range selectExprs {
 		rs, err := Expr(query, current, expr, opts...)
